@@ -728,6 +728,10 @@ enum Role {
     FastFail,
     /// may hold a round until a timeout fires
     Slow,
+    /// fails only when the TCP connect timeout fires (SYN never answered, nothing else tried on
+    /// this server): costs a lookup `connect_timeout`, which ResolverOpts documents as the bound
+    /// that leaves budget for the remaining servers
+    ConnectHang,
 }
 
 /// how a server behaves *as seen by one lookup*, independent of the order it is tried in
@@ -735,7 +739,7 @@ fn role(s: &Server, tc_possible: bool) -> Role {
     let tcp_role = |side: TcpSide| match side {
         TcpSide::Full => Role::Healthy,
         TcpSide::Refused | TcpSide::Reset => Role::FastFail,
-        TcpSide::Hang => Role::Slow,
+        TcpSide::Hang => Role::ConnectHang,
     };
     match s.beh {
         Beh::Answer => {
@@ -767,6 +771,7 @@ fn role(s: &Server, tc_possible: bool) -> Role {
                 }
             }
         },
+        Beh::Silent { tcp_accepts: false } if s.protos == Protos::TcpOnly => Role::ConnectHang,
         Beh::Silent { .. } => Role::Slow,
         Beh::IoError { .. } | Beh::Reset { .. } => Role::FastFail,
     }
@@ -919,7 +924,7 @@ fn check_result(c: &PoolCase, run: &Run, r: &CallerResult, who: &str, live_domai
                 let f = crate::core::Fail::new(
                     sig,
                     format!(
-                        "{who}: every faulty server fails fast and a healthy one exists, but the result is {} ({:?})",
+                        "{who}: every faulty server fails fast (or within connect_timeout) and a healthy one exists, but the result is {} ({:?})",
                         other.brief(),
                         other
                     ),
@@ -947,8 +952,14 @@ fn live_domain(c: &PoolCase, ncallers: usize) -> bool {
     // worst-case serial cost: every server costs at most UDP + TCP connect + TCP exchange per
     // round, at most 6 rounds (initial + 5 back-off retries), plus the 300 ms of back-off sleeps;
     // concurrent lookups do not wait for each other (max_active_requests is not reached).
-    let _ = ncallers;
-    let cost_ms: u64 = 300 + c.servers.iter().map(|s| 3 * 6 * s.lat_ms as u64).sum::<u64>();
+    // a server whose TCP connect hangs costs connect_timeout more, once per lookup; lookups that
+    // run concurrently may queue behind each other's connection attempt to it, so that bound is
+    // asserted for a single caller only
+    let hangs = roles.iter().filter(|r| **r == Role::ConnectHang).count() as u64;
+    if hangs > 0 && ncallers != 1 {
+        return false;
+    }
+    let cost_ms: u64 = 300 + hangs * (c.connect_timeout_ms as u64 + 50) + c.servers.iter().map(|s| 3 * 6 * s.lat_ms as u64).sum::<u64>();
     cost_ms < c.timeout_ms as u64 && cost_ms < c.connect_timeout_ms as u64 + c.timeout_ms as u64
 }
 
@@ -1261,7 +1272,7 @@ pub fn check() -> Option<Check> {
         level: "exploration",
         rule: "real NameServerPool::from_config on the simulated runtime in virtual time; 1..4 servers x behaviour {answer, NXDOMAIN trusted/untrusted, TC on UDP + {full, refused, reset, hang} on TCP, silent, io-error at send/recv/connect, reset/close mid-exchange, Busy x n then as before} x latency x {udp+tcp, udp, tcp} x ordering strategy x num_concurrent_reqs {1,2,4} x timeouts x 0x20 x 1..5 callers (identical/distinct, staggered) x optional later lookup; non-trivial = distinct scenario with >= 1 faulty and >= 1 answering server, or >= 2 callers; de-duplication: twin runs (1 caller vs k identical callers on fresh pools) compared exchange by exchange.",
         assumptions: vec![
-            "liveness is asserted only where the pool's ordering cannot matter: no silent/hanging server, at least one reliably answering server, worst-case serial cost below the timeout",
+            "liveness is asserted only where the pool's ordering cannot matter: no silent server, at least one reliably answering server, worst-case serial cost below the timeout; a server whose TCP connect hangs is admitted at the cost of connect_timeout (single caller only)",
             "after a TC reply the lookup is TCP-only by design (ConnectionPolicy.disable_udp): a UDP-only healthy server is then not counted as healthy",
             "a server that answers Busy more than 4 times exceeds the documented back-off (20+40+80+160 ms) and is counted as faulty",
             "Busy is injected at the public ConnectionProvider boundary; all other faults are socket-level",
